@@ -449,3 +449,39 @@ func Event(kind string, obj interface{}) {
 		EventHook(kind, obj)
 	}
 }
+
+// Quiesce parks the calling thread until no other thread can run (every other
+// thread has finished or is blocked).
+func Quiesce() {
+	e := cur
+	if e == nil || e.aborted {
+		return
+	}
+	self := e.running
+	e.point(opDesc{kind: KUser, en: func() bool {
+		for _, x := range e.threads {
+			if x == self || x.done {
+				continue
+			}
+			if x.pending.en == nil || x.pending.en() {
+				return false
+			}
+		}
+		return true
+	}})
+}
+
+// LiveLibThreads returns the number of library-spawned threads that have not finished.
+func LiveLibThreads() int {
+	e := cur
+	if e == nil {
+		return 0
+	}
+	n := 0
+	for _, x := range e.threads {
+		if x.lib && !x.done {
+			n++
+		}
+	}
+	return n
+}
